@@ -18,6 +18,7 @@ mod c05;
 mod c06;
 mod c08;
 mod c09;
+mod c10;
 mod c11;
 mod c12;
 mod c13;
@@ -68,6 +69,7 @@ fn main() {
         "c05" => c05::run(&mut ctx),
         "c06" => c06::run(&mut ctx),
         "c09" => c09::run(&mut ctx),
+        "c10" | "c01" => c10::run(&mut ctx),
         "c11" => c11::run(&mut ctx),
         "c12" => c12::run(&mut ctx),
         "c13" => c13::run(&mut ctx),
